@@ -61,6 +61,7 @@ func ruleRecState(c *Ctx) {
 		})
 	}
 	c.atLeast("stores to the NF cache", nNF, 4)
+	assignNotDecidedByRecord(c)
 
 	// ---- REBUILD: setField and setSpecial
 	// the assignment paths are found by what they do: every function that stores into the field slices, except
